@@ -2,11 +2,14 @@
 (fidelity, KL, NLL) on the three state types, plus the property oracles (independent numpy statements:
 squared overlap, Uhlmann fidelity, direct KL / NLL through dense Kronecker rotations) evaluated on the
 implementation."""
+import contextlib
+import io
 import itertools
 import math
 
 import numpy as np
 
+from . import argforms_a as af
 from . import qc
 from .common import bits, f2b, unbits
 from .qc import torch
@@ -29,6 +32,8 @@ FILES = [
     "qucumber/nn_states/neural_state.py",
     "qucumber/nn_states/wavefunction.py",
     "qucumber/nn_states/density_matrix.py",
+    "qucumber/rbm/binary_rbm.py",
+    "qucumber/rbm/purification_rbm.py",
 ]
 REQUIRED_THEOREMS = [
     "C10_fid_overlap", "C10_fid_range", "C10_fid_self", "C10_fid_phase_invariant",
@@ -68,7 +73,15 @@ RULE = ("case = (op in {fidelity, KL, NLL}, state kind in {pos, cplx, dens}, n<=
         "per-sample bases incl. all-Z rows and duplicates; optional PRELUDE = the caller obtained generate_hilbert_space() from a state of that "
         "size and modified the returned tensor in place (flip_spin, chain buffer, edits, numpy view) before the metric is evaluated "
         "with space=None on the same or another state object; and/or the state object first held other parameters, was evaluated, and was "
-        "re-parametrised in place); non-trivial iff some bias != 0 and (target not real or a basis has a Y or "
+        "re-parametrised in place); ARGUMENT FORMS (round 5, key `aseed` = seed of the case's stream, harness/argforms_a.py): every integer option "
+        "(constructor sizes num_visible / num_hidden / num_aux of the state and RBM constructors, `size` of generate_hilbert_space - also as the "
+        "caller-made `space=` of a metric, call form space_gen -, `period` of MetricEvaluator, `epoch` of on_epoch_end, `index` of get_value, the "
+        "ignored extra keyword `epoch`, `i` of flip_spin / `k` of sample in the prelude) is a Python int, np.int64/int32/intp/uint8, a 0-d integer "
+        "numpy array or a 0-d integer torch tensor, every boolean option (`gpu`, `zero_weights`, `verbose` of MetricEvaluator, `expand` of rho, "
+        "`overwrite` of sample, the ignored extra keyword `verbose`) a bool singleton, 0/1, numpy bool, numpy comparison result, 0-d numpy / torch "
+        "bool, by keyword or positionally; the evaluator form also calls on_epoch_end at an epoch that is no multiple of the period (nothing may be "
+        "recorded) and, on a coin, once before with the state's parameters changed in place (the record at index 0 must be that state's value, "
+        "the one at -1 / 1 the case's); the model is told the VALUES; cases without `aseed` replay with plain ints / bools by keyword; non-trivial iff some bias != 0 and (target not real or a basis has a Y or "
         "X) ; malformed stream and call forms the code rejects (empty bases, key mismatch, mask length mismatch, empty samples, alias+target, dict target "
         "with 2-D ndarray bases, sample_bases as list[str]): outside the property's quantifier, recorded as outcome counters only, no verdict; distinct by hash of the case")
 
@@ -89,12 +102,45 @@ def dense_U(basis):
 
 
 # ---------------------------------------------------------------- state construction
-def make_state(s):
+class SkipCase(Exception):
+    """the case cannot be evaluated further (the reason has been reported through ctx.oracle by whoever raises this)"""
+
+
+def plain(A):
+    """no argument-form stream: the calls are made exactly as before round 5 (Python ints / bool singletons by keyword)"""
+    return A is None or A.aseed is None
+
+
+def make_state(s, A=None):
+    """`A`: the case's stream of argument forms (harness/argforms_a.py): every size / `gpu` of the state and RBM constructors is handed over in
+    the case's forms, keyword or positional; None / unseeded = the plain calls of qc.make_*"""
+    if plain(A):
+        if s["kind"] == "pos":
+            return qc.make_positive(s["n"], s["h"], s["am"])
+        if s["kind"] == "cplx":
+            return qc.make_complex(s["n"], s["h"], s["am"], s["ph"])
+        return qc.make_density(s["n"], s["h"], s["a"], s["am"], s["ph"])
     if s["kind"] == "pos":
-        return qc.make_positive(s["n"], s["h"], s["am"])
+        return af.make_positive(A, s["n"], s["h"], s["am"])
     if s["kind"] == "cplx":
-        return qc.make_complex(s["n"], s["h"], s["am"], s["ph"])
-    return qc.make_density(s["n"], s["h"], s["a"], s["am"], s["ph"])
+        return af.make_complex(A, s["n"], s["h"], s["am"], s["ph"])
+    return af.make_density(A, s["n"], s["h"], s["a"], s["am"], s["ph"])
+
+
+def want_sizes(s):
+    return (s["n"], s["h"], s["a"]) if s["kind"] == "dens" else (s["n"], s["h"])
+
+
+def build_state(ctx, s, case, A):
+    """construct the state of the case in the case's argument forms and check that it has the REQUESTED architecture (the metrics are
+    statements about "the model state" the caller asked for); raises SkipCase (already reported) otherwise"""
+    st = make_state(s, A)
+    if plain(A):
+        return st
+    if not af.check_sizes(ctx, st, want_sizes(s), case, A, f"{s['kind']}/ctor-sizes",
+                          "C10_fid_rbm / C10_kl_self_zero_rbm / C10_nll_born_rbm (stated for the RBM state of the architecture the caller asked for)"):
+        raise SkipCase("constructed architecture != requested sizes")
+    return st
 
 
 def state_req(s):
@@ -118,13 +164,24 @@ def gen_state(rng, kind, n, scale):
     return s
 
 
-def impl_state(st, s):
+def impl_state(st, s, A=None, ctx=None, case=None):
     """normalised state of the implementation as numpy: (psi_hat or None, rho_hat, Z); evaluated on an enumeration built HERE
-    (not by the library, whose enumeration is part of what is being checked)"""
+    (not by the library, whose enumeration is part of what is being checked).  With a stream of argument forms `A` the `expand` option of
+    DensityMatrix.rho (value True: the full matrix) is handed over in the case's form, keyword or third positional."""
     space = torch.tensor(qc.all_states(s["n"]), dtype=torch.double).reshape(2 ** s["n"], s["n"])
     Z = float(st.normalization(space))
     if s["kind"] == "dens":
-        r = st.rho(space, space).detach().numpy()
+        if plain(A):
+            r = st.rho(space, space).detach().numpy()
+        else:
+            eo, ed = A.b_desc(True)
+            r = (st.rho(space, space, eo) if ed["pos"] else st.rho(space, space, expand=eo)).detach().numpy()
+            N = 2 ** s["n"]
+            if tuple(r.shape) != (2, N, N):
+                if ctx is not None:
+                    ctx.oracle("rho(space, space, expand=<true value>) is the full density matrix", False, case,
+                               detail={"expand": ed, "shape": list(r.shape)}, sig="dens/rho-expand-form", theorem="C10_mixedBorn_dense")
+                raise SkipCase("rho(expand=truthy) is not a matrix")
         rho = (r[0] + 1j * r[1]) / Z
         return None, rho, Z
     p = st.psi(space).detach().numpy()
@@ -188,6 +245,7 @@ def call(f):
     try:
         r = f()
     except Exception as e:  # noqa: BLE001
+        call.last_message = f"{type(e).__name__}: {e}"[:300]
         return ("err", type(e).__name__, None)
     tn = type(r).__name__
     try:
@@ -195,6 +253,9 @@ def call(f):
     except Exception:  # noqa: BLE001
         v = float("nan")
     return ("ok", v, tn)
+
+
+call.last_message = None
 
 
 def compare_res(ctx, name, out, mres, case, scale, theorem, sig, prop_value=True):
@@ -236,8 +297,8 @@ def nontrivial_state(s):
 
 # ---------------------------------------------------------------- call forms (audit C10-2)
 JUNK = {"foo": 3, "epoch": 7, "verbose": False}  # extra keyword arguments: documented "Will be ignored"
-TARGET_FORMS = ("positional", "kw", "deprecated_psi", "deprecated_rho", "junk", "space", "space_pos", "space_perm", "evaluator")
-NLL_FORMS = ("positional", "kw", "junk", "space", "space_perm", "evaluator")
+TARGET_FORMS = ("positional", "kw", "deprecated_psi", "deprecated_rho", "junk", "space", "space_pos", "space_perm", "space_gen", "evaluator")
+NLL_FORMS = ("positional", "kw", "junk", "space", "space_perm", "space_gen", "evaluator")
 CONTAINERS = ("list", "nd1", "nd2")  # list[str] (the quantifier's form), numpy.ndarray of strings / 2-D of letters (the documented type; what load_data yields)
 INFO_CONTAINERS = ("tuple", "lol")   # neither in the quantifier nor documented: outcome counters only, no verdict
 
@@ -267,10 +328,86 @@ def as_container(bases, how, n):
     raise ValueError(how)
 
 
-def invoke(fn, st, call, n, main_name, main, extra):
+def junk_kwargs(A, evaluator=False):
+    """the extra (ignored) keyword arguments; with a stream of forms the integer / boolean ones in the case's forms.  For the evaluator the
+    keyword `verbose` is the MetricEvaluator's own option and is handed over separately."""
+    if plain(A):
+        return dict(JUNK)
+    j = {"foo": A.i(3), "epoch": A.i(7)}
+    if not evaluator:
+        j["verbose"] = A.b(False)
+    return j
+
+
+def same(a, b):
+    return a is b or (type(a) is type(b) and a == b)
+
+
+EPOCH_FORMS_FOR_TENSOR_PERIOD = tuple(f for f in qc.INT_FORMS if f != "np0d")  # `np.array(e) % torch.tensor(p)` is a TypeError of numpy / torch
+
+
+def evaluate_through_callback(fn, st, call, n, main_name, main, kw, A):
+    """the way metrics are called during training: callbacks/metric_evaluator.py:133  metric_fn(nn_state, **metric_kwargs),
+    every keyword argument of the evaluator goes to every metric (so each metric also receives the others' arguments)"""
+    from qucumber.callbacks import MetricEvaluator
+
+    others = {"samples": torch.zeros(1, n, dtype=torch.double)} if main_name == "target" else \
+        {"target": torch.zeros(2, 2 ** n, dtype=torch.double), "bases": ["Z" * n]}
+    period = call.get("period", 1)
+    epoch = period * call.get("k", 1)
+    if plain(A):
+        me = MetricEvaluator(period, {"m": fn}, **{main_name: main}, **kw, **others, **JUNK)
+        me.on_epoch_end(st, epoch)
+        if len(me) != 1 or me.get_value("m") is not me.last["m"] or list(me.epochs) != [epoch]:
+            raise AssertionError("MetricEvaluator bookkeeping")
+        return me.last["m"]
+    # integer `period` / `epoch` / `index` and boolean `verbose` in the case's forms (verbose: keyword or third positional); what a true
+    # `verbose` prints is not constrained by the property (stdout is swallowed)
+    po, pd = A.i_desc(period)
+    eforms = EPOCH_FORMS_FOR_TENSOR_PERIOD if pd["form"] == "t0d" else qc.INT_FORMS
+    vo, vd = A.b_desc(bool(call.get("verbose", False)))
+    mkw = dict({main_name: main}, **kw, **others, **junk_kwargs(A, evaluator=True))
+    with contextlib.redirect_stdout(io.StringIO()):
+        me = MetricEvaluator(po, {"m": fn}, vo, **mkw) if vd["pos"] else MetricEvaluator(po, {"m": fn}, verbose=vo, **mkw)
+        want_epochs, v0 = [], None
+        if period > 1:   # an epoch that is no multiple of the period: the evaluator does not evaluate
+            off = epoch + 1 + A.choice(range(period - 1))
+            me.on_epoch_end(st, A.i(off, eforms))
+            if len(me) != 0 or me.last != {}:
+                raise AssertionError(f"MetricEvaluator(period={period}) evaluated at epoch {off}")
+        if A.coin(0.6):
+            # an earlier record (epoch 0) taken while the SAME state object held other parameters (training goes on between two evaluations):
+            # the record at index 0 must stay that state's value
+            saved = st.rbm_am.visible_bias.data.clone()
+            st.rbm_am.visible_bias.data += 0.25
+            try:
+                v0 = fn(st, **{main_name: main}, **kw)
+                me.on_epoch_end(st, A.i(0, eforms))
+            finally:
+                st.rbm_am.visible_bias.data.copy_(saved)
+            want_epochs.append(0)
+        me.on_epoch_end(st, A.i(epoch, eforms))   # (last: the eigvals spy of the mixed fidelity keeps the matrix of the last evaluation)
+        want_epochs.append(epoch)
+    if len(me) != len(want_epochs) or [int(e) for e in me.epochs] != want_epochs or "m" not in me.last:
+        raise AssertionError(f"MetricEvaluator bookkeeping: records at epochs {[int(e) for e in me.epochs]}, evaluations were due at {want_epochs} "
+                             f"(period {pd}, last epoch handed over as {A.ints.used[-1]})")
+    last = me.last["m"]
+    if me.get_value("m") is not last:
+        raise AssertionError("MetricEvaluator bookkeeping: get_value() is not the last value")
+    if not same(me.get_value("m", A.i(-1)), last) or not same(me.get_value("m", index=A.i(len(want_epochs) - 1)), last):
+        raise AssertionError("MetricEvaluator.get_value(index of the last record) is not the last value")
+    if v0 is not None:
+        g0 = me.get_value("m", A.i(0)) if A.coin(0.5) else me.get_value("m", index=A.i(0))
+        g0b = me.get_value("m", A.i(-2))
+        if type(g0) is not type(v0) or not (abs(float(g0) - float(v0)) <= 1e-12 * max(1.0, abs(float(v0)))) or not same(g0b, g0):
+            raise AssertionError(f"MetricEvaluator.get_value(index 0) = {g0!r} is not the value recorded first ({v0!r})")
+    return last
+
+
+def invoke(fn, st, call, n, main_name, main, extra, A=None):
     """evaluate metric `fn` on `st` in call form `call["form"]`. `main` = the target (fidelity, KL) / the samples (NLL), whose keyword is
     `main_name`; `extra` = the other keyword arguments of the case (bases= / sample_bases=). For "space_perm" the caller has already
-    listed `main` in the order space[perm]."""
+    listed `main` in the order space[perm].  `A`: the case's stream of argument forms (None: plain Python ints / bools by keyword)."""
     form = (call or {}).get("form", "positional")
     kw = dict(extra)
     if form == "positional":
@@ -282,26 +419,22 @@ def invoke(fn, st, call, n, main_name, main, extra):
     if form == "deprecated_rho":
         return fn(st, target_rho=main, **kw)
     if form == "junk":
-        return fn(st, main, **kw, **JUNK)
+        return fn(st, main, **kw, **junk_kwargs(A))
     if form == "space":
         return fn(st, main, space=own_space(n), **kw)
     if form == "space_pos":
         return fn(st, main, own_space(n), **kw)
     if form == "space_perm":
         return fn(st, main, space=own_space(n)[call["perm"]], **kw)
+    if form == "space_gen":
+        # the documented way to obtain `space`: the caller asks the state for the enumeration, naming the size (= number of visible units) in
+        # whatever integer object it has in hand, keyword or positional; the metric receives it as keyword or third positional argument
+        if plain(A):
+            return fn(st, main, space=st.generate_hilbert_space(size=n), **kw)
+        sp = st.generate_hilbert_space(A.i(n)) if A.coin(0.5) else st.generate_hilbert_space(size=A.i(n))
+        return fn(st, main, sp, **kw) if A.coin(0.5) else fn(st, main, space=sp, **kw)
     if form == "evaluator":
-        # the way metrics are called during training: callbacks/metric_evaluator.py:133  metric_fn(nn_state, **metric_kwargs),
-        # every keyword argument of the evaluator goes to every metric (so each metric also receives the others' arguments)
-        from qucumber.callbacks import MetricEvaluator
-
-        others = {"samples": torch.zeros(1, n, dtype=torch.double)} if main_name == "target" else \
-            {"target": torch.zeros(2, 2 ** n, dtype=torch.double), "bases": ["Z" * n]}
-        period = call.get("period", 1)
-        me = MetricEvaluator(period, {"m": fn}, **{main_name: main}, **kw, **others, **JUNK)
-        me.on_epoch_end(st, period * call.get("k", 1))
-        if len(me) != 1 or me.get_value("m") is not me.last["m"] or list(me.epochs) != [period * call.get("k", 1)]:
-            raise AssertionError("MetricEvaluator bookkeeping")
-        return me.last["m"]
+        return evaluate_through_callback(fn, st, call, n, main_name, main, kw, A)
     raise ValueError(form)
 
 
@@ -328,10 +461,10 @@ def rejected_forms(ctx, st, s, t):
         ctx.count(f"rejected-form:{name} -> {out[1] if out[0] == 'err' else 'value'}")
 
 # ---------------------------------------------------------------- fidelity
-def fidelity_case(ctx, case, st=None):
+def fidelity_case(ctx, case, st=None, A=None):
     s = case["state"]
     st = st if st is not None else make_state(s)
-    psi_hat, rho_hat, Z = impl_state(st, s)
+    psi_hat, rho_hat, Z = impl_state(st, s, A, ctx, case)
     tclass = case["tclass"]
     cf = case.get("call")
     form = (cf or {}).get("form", "positional")
@@ -347,13 +480,13 @@ def fidelity_case(ctx, case, st=None):
 
     if s["kind"] != "dens":
         t = cfrom(case["target"])
-        out = call(lambda: invoke(ts.fidelity, st, cf, n, "target", passed(t), {}))
+        out = call(lambda: invoke(ts.fidelity, st, cf, n, "target", passed(t), {}, A))
         if ctx.driver is not None:
             m = ctx.driver.call("c10.fidelity", **state_req(s), target=cbits(case["target"]))
             ctx.point("Z", "aux", [Z], unbits([m["Z"]]), case, scale=Z)
             compare_res(ctx, "fidelity", out, m["res"], case, 1.0, THEOREMS["fid_pure"], sig0)
         if out[0] != "ok":
-            ctx.oracle("fidelity returns", False, case, detail={"error": out[1]}, sig=sig0 + "/raises")
+            ctx.oracle("fidelity returns", False, case, detail={"error": out[1], "message": call.last_message}, sig=sig0 + "/raises")
             return
         F = out[1]
         ctx.oracle("fidelity kind is a real number", out[2] in ("float", "float64"), case, detail={"type": out[2]}, sig=sig0 + "/kind-oracle", theorem="C10_kind")
@@ -363,7 +496,7 @@ def fidelity_case(ctx, case, st=None):
         if tclass == "self":
             ctx.oracle("self fidelity == 1", abs(F - 1) <= 1e-9, case, detail={"F": F}, sig=sig0 + "/self", theorem="C10_fid_self")
         alpha = case.get("alpha", 0.7)
-        F2 = call(lambda: invoke(ts.fidelity, st, cf, n, "target", passed(np.exp(1j * alpha) * t), {}))
+        F2 = call(lambda: invoke(ts.fidelity, st, cf, n, "target", passed(np.exp(1j * alpha) * t), {}, A))
         ctx.oracle("fidelity phase invariant", F2[0] == "ok" and abs(F2[1] - F) <= 1e-9, case, detail={"F": F, "F_phase": F2[1]}, sig=sig0 + "/phase", theorem="C10_fid_phase_invariant")
     else:
         T = cfrom(case["target"])
@@ -379,14 +512,14 @@ def fidelity_case(ctx, case, st=None):
 
         np.linalg.eigvals = spy
         try:
-            out = call(lambda: invoke(ts.fidelity, st, cf, n, "target", Tt, {}))
+            out = call(lambda: invoke(ts.fidelity, st, cf, n, "target", Tt, {}, A))
         finally:
             np.linalg.eigvals = orig
         if perm is not None and "arg" in cap:  # the matrix over space[perm] is P A P^T: list it in canonical order for the comparison with the model
             inv = np.argsort(perm)
             cap["arg"] = cap["arg"][np.ix_(inv, inv)]
         if out[0] != "ok":
-            ctx.oracle("fidelity returns", False, case, detail={"error": out[1], "eigvals_called": "res" in cap}, sig=sig0 + "/raises")
+            ctx.oracle("fidelity returns", False, case, detail={"error": out[1], "message": call.last_message, "eigvals_called": "res" in cap}, sig=sig0 + "/raises")
             return
         F = out[1]
         N = 2 ** s["n"]
@@ -447,11 +580,11 @@ def target_born(s, t, basis):
     return np.abs(U @ t) ** 2
 
 
-def kl_case(ctx, case, st=None):
+def kl_case(ctx, case, st=None, A=None):
     s = case["state"]
     st = st if st is not None else make_state(s)
     n = s["n"]
-    psi_hat, rho_hat, Z = impl_state(st, s)
+    psi_hat, rho_hat, Z = impl_state(st, s, A, ctx, case)
     tclass, form, bases = case["tclass"], case["form"], case["bases"]
     t = cfrom(case["target"])
     mixed = s["kind"] == "dens"
@@ -480,7 +613,7 @@ def kl_case(ctx, case, st=None):
     else:
         tgt = cvec_t(t if perm is None else perm_target(t, perm, mixed))
         mt = {"once": {"re": bits(t.real), "im": bits(t.imag)}}
-    out = call(lambda: invoke(ts.KL, st, cf, n, "target", tgt, {"bases": as_container(bases, cont, n)}))
+    out = call(lambda: invoke(ts.KL, st, cf, n, "target", tgt, {"bases": as_container(bases, cont, n)}, A))
     if cont in INFO_CONTAINERS:
         ctx.count(f"kl.undocumented_container={cont}: impl={out[1] if out[0] == 'err' else 'value'}")
         return
@@ -500,7 +633,7 @@ def kl_case(ctx, case, st=None):
         pos_no_dict(ctx, case, out, "KL")
         return
     if out[0] != "ok":
-        ctx.oracle("KL returns", False, case, detail={"error": out[1]}, sig=sig0 + "/raises")
+        ctx.oracle("KL returns", False, case, detail={"error": out[1], "message": call.last_message}, sig=sig0 + "/raises")
         return
     K = out[1]
     ctx.oracle("KL kind is a real number", out[2] in ("float", "float64"), case, detail={"type": out[2]}, sig=sig0 + "/kind-oracle", theorem="C10_kind")
@@ -542,11 +675,11 @@ def kl_case(ctx, case, st=None):
 
 
 # ---------------------------------------------------------------- NLL
-def nll_case(ctx, case, st=None):
+def nll_case(ctx, case, st=None, A=None):
     s = case["state"]
     st = st if st is not None else make_state(s)
     n = s["n"]
-    psi_hat, rho_hat, Z = impl_state(st, s)
+    psi_hat, rho_hat, Z = impl_state(st, s, A, ctx, case)
     samples, sb = case["samples"], case["sample_bases"]
     cf = case.get("call")
     cform = (cf or {}).get("form", "positional")
@@ -562,7 +695,7 @@ def nll_case(ctx, case, st=None):
         ctx.count(f"nll.unique_bases={min(len(set(sb)), 5)}{'+' if len(set(sb)) > 5 else ''}")
     samp_t = torch.tensor(samples, dtype=torch.double).reshape(len(samples), n)
     sb_np = None if sb is None else as_container(sb, cont, n)
-    out = call(lambda: invoke(ts.NLL, st, cf, n, "samples", samp_t, {"sample_bases": sb_np}))
+    out = call(lambda: invoke(ts.NLL, st, cf, n, "samples", samp_t, {"sample_bases": sb_np}, A))
     if cont in INFO_CONTAINERS:
         ctx.count(f"nll.undocumented_container={cont}: impl={out[1] if out[0] == 'err' else 'value'}")
         return
@@ -582,7 +715,7 @@ def nll_case(ctx, case, st=None):
         pos_no_dict(ctx, case, out, "NLL")
         return
     if out[0] != "ok":
-        ctx.oracle("NLL returns", False, case, detail={"error": out[1]}, sig=sig0 + "/raises")
+        ctx.oracle("NLL returns", False, case, detail={"error": out[1], "message": call.last_message}, sig=sig0 + "/raises")
         return
     L = out[1]
     ctx.oracle("NLL kind is a real number", out[2] in ("float", "float64"), case, detail={"type": out[2]}, sig=sig0 + "/kind-oracle", theorem="C10_kind")
@@ -599,7 +732,7 @@ def nll_case(ctx, case, st=None):
     if perm is not None and len(samples) > 1:
         s2 = [samples[i] for i in perm]
         b2 = None if sb is None else as_container([sb[i] for i in perm], cont, n)
-        out2 = call(lambda: invoke(ts.NLL, st, cf, n, "samples", torch.tensor(s2, dtype=torch.double).reshape(len(s2), n), {"sample_bases": b2}))
+        out2 = call(lambda: invoke(ts.NLL, st, cf, n, "samples", torch.tensor(s2, dtype=torch.double).reshape(len(s2), n), {"sample_bases": b2}, A))
         ctx.oracle("NLL permutation invariant", out2[0] == "ok" and abs(out2[1] - L) <= 1e-9 * max(1, abs(L)), case, detail={"NLL": L, "permuted": out2[1]},
                    sig=sig0 + "/perm", theorem="C10_nll_perm")
 
@@ -645,7 +778,7 @@ def pick_bases(rng, n, thorough, everything=False):
     return sel
 
 
-def gen_cases(ctx, thorough):
+def _gen_cases(ctx, thorough):
     rng = ctx.rng
     ns = [1, 2, 3, 4] if thorough else [1, 2, 3]
     reps = 6 if thorough else 1
@@ -709,7 +842,7 @@ def gen_cases(ctx, thorough):
                             pm = pm[1:] + pm[:1]
                         c["perm"] = pm
                     if f == "evaluator":
-                        c["period"] = rng.choice([1, 2, 5]); c["k"] = rng.choice([0, 1, 3])
+                        c["period"] = rng.choice([1, 2, 5]); c["k"] = rng.choice([0, 1, 3]); c["verbose"] = rng.random() < 0.4
                     return c
                 sweep_t = [targets[0], rng.choice(targets[1:])] if thorough else [rng.choice(targets)]
                 short = rng.sample(sel, min(len(sel), 2))
@@ -737,6 +870,13 @@ def gen_cases(ctx, thorough):
                     yield {"op": "nll", "state": s, "samples": samples, "sample_bases": sbs, "perm": pm, "call": cform(f, bases_as="nd2")}
                     yield {"op": "nll", "state": s, "samples": samples, "sample_bases": None, "perm": pm, "call": cform(f)}
                 yield {"op": "nll", "state": s, "samples": samples, "sample_bases": sbs, "perm": None, "call": cform("positional", bases_as="lol")}
+                # ---------- (round 5) more evaluations through the callback: period / epoch / index / verbose in other forms and values
+                for _ in range(3 if thorough else 2):
+                    (tclass, t) = rng.choice(targets)
+                    yield {"op": "fidelity", "state": s, "tclass": tclass, "target": cjson(t), "alpha": alpha, "call": cform("evaluator")}
+                    yield {"op": "kl", "state": s, "tclass": tclass, "target": cjson(t), "form": "once", "bases": short, "keys": None,
+                           "call": cform("evaluator", bases_as=rng.choice(CONTAINERS))}
+                    yield {"op": "nll", "state": s, "samples": samples, "sample_bases": sbs, "perm": pm, "call": cform("evaluator", bases_as="nd2")}
                 yield {"op": "rejected", "state": s, "target": cjson(targets[0][1])}
                 # ---------- the same metrics (space=None) after an enumeration handed out earlier was modified in place by the caller
                 def prelude():
@@ -779,20 +919,41 @@ def gen_cases(ctx, thorough):
 PRELUDE_HOW = ("flip_spin", "sample_overwrite", "edit", "zero_", "fill_", "complement", "numpy_view", "copy_")
 
 
-def run_prelude(ctx, case):
+def mutate_handed_out(A, st, sp, how, seed):
+    """c19.mutate_in_place, with the integer / boolean options of the two public calls it makes (`flip_spin(i, samples)`,
+    `sample(k, initial_state=, overwrite=)`) in the case's argument forms (the prelude only needs the tensor CHANGED: no verdict depends on how)"""
+    from .c19 import mutate_in_place
+
+    if plain(A) or how not in ("flip_spin", "sample_overwrite"):
+        return mutate_in_place(st, sp, how, seed)
+    import random
+    r = random.Random(seed)
+    if how == "flip_spin":
+        from qucumber.observables.pauli import flip_spin
+        flip_spin(A.i(r.randrange(sp.shape[-1])), sp)
+        return
+    torch.manual_seed(seed)
+    if sp.dim() == 2 and sp.shape[1] == st.num_visible:
+        oo, od = A.b_desc(True)
+        if od["pos"]:
+            st.sample(A.i(3), A.i(1), sp, oo)
+        else:
+            st.sample(k=A.i(3), initial_state=sp, overwrite=oo)
+    sp.copy_(1 - sp)
+
+
+def run_prelude(ctx, case, A=None):
     """history before the metric call: the caller obtains the enumeration of the Hilbert space from a state (of the case's size),
     optionally evaluates a metric with space=None once, and then modifies the tensor it was given IN PLACE (flip_spin, chain buffer
     of sample(overwrite=True), direct edits, ...).  The metric of the case is then evaluated with space=None on that same state
     object or on another state object of the same size, and compared with the model as usual.  -> state object to use (or None)"""
-    from .c19 import mutate_in_place
-
     pre = case["prelude"]
     s = case["state"]
     if pre.get("reparam_from"):
         # the state object first holds OTHER parameters, every metric is evaluated on it, then it is re-parametrised IN PLACE
         # (training between two evaluations) to the parameters of the case
         s0 = pre["reparam_from"]
-        st = make_state(s0)
+        st = build_state(ctx, s0, case, A)
         ctx.count("prelude:reparametrised_in_place")
         N = 2 ** s["n"]
         t = np.zeros(N, dtype=complex); t[N - 1] = 1.0
@@ -806,28 +967,50 @@ def run_prelude(ctx, case):
             if s["kind"] == "cplx":
                 qc.set_rbm(st.rbm_ph, s["ph"], inplace=True)
     else:
-        st = make_state(s)
+        st = build_state(ctx, s, case, A)
     ctx.count("prelude"); ctx.count(f"prelude:how={pre['how']}"); ctx.count("prelude:same_state_object" if pre["same_object"] else "prelude:other_state_object")
     if pre.get("warm"):
         N = 2 ** s["n"]
         t = np.zeros(N, dtype=complex); t[0] = 1.0
         call(lambda: ts.fidelity(st, cvec_t(np.outer(t, t) if s["kind"] == "dens" else t)))
     sp = st.generate_hilbert_space()
-    mutate_in_place(st, sp, pre["how"], pre["seed"])
+    mutate_handed_out(A, st, sp, pre["how"], pre["seed"])
     if pre.get("twice"):
-        sp2 = st.generate_hilbert_space(s["n"])
-        mutate_in_place(st, sp2, PRELUDE_HOW[(PRELUDE_HOW.index(pre["how"]) + 3) % len(PRELUDE_HOW)], pre["seed"] + 1)
+        if plain(A):
+            sp2 = st.generate_hilbert_space(s["n"])
+        else:
+            sp2 = st.generate_hilbert_space(A.i(s["n"])) if A.coin(0.5) else st.generate_hilbert_space(size=A.i(s["n"]))
+        mutate_handed_out(A, st, sp2, PRELUDE_HOW[(PRELUDE_HOW.index(pre["how"]) + 3) % len(PRELUDE_HOW)], pre["seed"] + 1)
     return st if (pre["same_object"] or pre.get("reparam_from")) else None
 
 
 def dispatch(ctx, case):
-    st = run_prelude(ctx, case) if case.get("prelude") else None
-    if case["op"] == "rejected":
-        s = case["state"]
-        ctx.count("op=rejected-forms (counters only)")
-        rejected_forms(ctx, st if st is not None else make_state(s), s, cfrom(case["target"]))
-        return
-    {"fidelity": fidelity_case, "kl": kl_case, "nll": nll_case}[case["op"]](ctx, case, st=st)
+    """`aseed` (round 5): seed of the case's stream of argument forms; a case without the key (stored before round 5) is evaluated with
+    plain Python ints / bool singletons in keyword position, i.e. with exactly the calls made before"""
+    A = af.Args(case.get("aseed"))
+    ctx.current_case = case
+    try:
+        st = run_prelude(ctx, case, A) if case.get("prelude") else None
+        if st is None:
+            st = build_state(ctx, case["state"], case, A)
+        if case["op"] == "rejected":
+            s = case["state"]
+            ctx.count("op=rejected-forms (counters only)")
+            rejected_forms(ctx, st, s, cfrom(case["target"]))
+            return
+        {"fidelity": fidelity_case, "kl": kl_case, "nll": nll_case}[case["op"]](ctx, case, st=st, A=A)
+    except SkipCase:
+        ctx.count("case_skipped:constructed_state_unusable")
+    finally:
+        A.count_into(ctx)
+
+
+def gen_cases(ctx, thorough):
+    """the cases of `_gen_cases`, each with the seed of its own stream of argument forms (drawn from the generator's rng, so a run is a
+    function of VERIF_SEED and a stored case carries everything needed to hand over the same objects again)"""
+    for case in _gen_cases(ctx, thorough):
+        case["aseed"] = af.draw_aseed(ctx.rng)
+        yield case
 
 
 def run(ctx):
